@@ -276,7 +276,15 @@ def place(strings, forms, col, stats):
                 ss = block[r:] + block[:r]
                 stats["parses"] += 1
                 stats["placements"] += arity
-                bad = roundtrip(build(ss))
+                built = build(ss)
+                # P0: the builders keep every given text as a *string* argument with exactly that text (never re-read as a link / entity)
+                kept = [v for (pth, v) in args_of(built) if isinstance(v, str) and (".p" in pth or ".hp" in pth)]
+                lost = [x for x in ss if x not in kept]
+                if lost:
+                    col.add("P0 a text handed to with_action / from_arguments stays a string argument with that text", "parse/encode: " + fname.split(" level")[0].split("(")[0],
+                            size=len(lost[0]) * 10, form=fname, s=show(lost[0]), arguments_of_the_built_query=show(kept[:6]))
+                    continue
+                bad = roundtrip(built)
                 if bad is None:
                     continue
                 found = False
